@@ -97,6 +97,7 @@ def mx(b, e, st=None):
     if o == 'u': return b.u[e['i'] - 1]
     if o == 'z': return b.z[e['i'] - 1]
     if o == 'dx': return st.inf_der(b.x[e['i'] - 1])
+    if o == 'inert': return st.inf_inert(mx(b, e['a'], st))
     if o == 'p': return b.p[e['i'] - 1]
     if o == 'v': return b.v[e['i'] - 1]
     if o == 't': return st.t
